@@ -156,10 +156,28 @@ def qpExpr (t : TableRef) (r : Restr) : Expr :=
      else .idx "quadrature_permutation" .int [.litI 0])
   else .litI 0
 
+/-- the loop of the tensor-factor branch of `table_access`: `for i in range(dof_index.dim)` over the
+    factor tables, the quadrature index symbols and the dof index symbols (`IndexError` when the factor
+    list runs out, `AssertionError` from `local_index` when an index has too few symbols,
+    `RuntimeError` for the `None` entity) -/
+def tpGo (qp : Expr) (entity : Option Expr) :
+    Nat → List (String × Nat) → List String → List String → M (List Expr × List String)
+  | 0, _, _, _ => .ok ([], [])
+  | _ + 1, [], _, _ => .error "IndexError"
+  | _ + 1, _ :: _, [], _ => .error "AssertionError"
+  | _ + 1, _ :: _, _ :: _, [] => .error "AssertionError"
+  | n + 1, (fname, _) :: fs, qs :: qss, ds :: dss =>
+    match entity with
+    | none => .error "RuntimeError"
+    | some e =>
+      match tpGo qp entity n fs qss dss with
+      | .error err => .error err
+      | .ok (fe, names) => .ok (.idx fname .real [qp, e, isym qs, isym ds] :: fe, fname :: names)
+
 /-- `FFCXBackendAccess.table_access(tabledata, entity_type, restriction, iq, dof_index)`:
     the access expression and the list of table symbols it uses. -/
 def tableAccess (t : TableRef) (entityType : String) (r : Restr) (iq dof : MIx) :
-    M (Expr × List String) := do
+    M (Expr × List String) :=
   let entity0 := entityExpr entityType r
   let entity : Option Expr := if t.isUniform then some (.litI 0) else entity0
   let iqg : Expr := if t.isPiecewise then .litI 0 else iq.global
@@ -173,19 +191,7 @@ def tableAccess (t : TableRef) (entityType : String) (r : Restr) (iq dof : MIx) 
     match t.factors with
     | none => .error "AssertionError"
     | some fs =>
-      let rec go (i : Nat) (n : Nat) (fe : List Expr) (names : List String) :
-          M (List Expr × List String) :=
-        match n with
-        | 0 => .ok (fe, names)
-        | n + 1 =>
-          match fs[i]?, iq.syms[i]?, dof.syms[i]?, entity with
-          | none, _, _, _ => .error "IndexError"
-          | _, none, _, _ => .error "AssertionError"   -- `local_index`: assert idx < len(symbols)
-          | _, _, none, _ => .error "AssertionError"
-          | _, _, _, none => .error "RuntimeError"
-          | some (fname, _), some qs, some ds, some e =>
-            go (i + 1) n (fe ++ [.idx fname .real [qp, e, isym qs, isym ds]]) (names ++ [fname])
-      match go 0 dof.dim [] [] with
+      match tpGo qp entity dof.dim fs iq.syms dof.syms with
       | .error e => .error e
       | .ok (fe, names) =>
         if fe.isEmpty then .error "IndexError"   -- `NaryOp.__init__`: `self.args[0]`
